@@ -15,7 +15,66 @@ GEN = os.path.join(vcheck.LEAN, "GeomV", "C09", "Gen")
 _state = {}
 
 
+# sha256 of the vendored proj4js 2.3.12 sources that `Js.lean` was transliterated from and that the
+# table extractor reads (snapshot 8354466 of /repo): "that proj4js release" of the property is pinned,
+# so editing the vendored JavaScript together with the Go port cannot make the two agree.
+JS_PIN = {
+    "common/sign.js": "5bfd6fc0216051ef0424740111bbeaa944deb1aca435a93f7ac6ff13f75450be",
+    "common/adjust_lon.js": "36c099eb31127d522db0f2ca45c981328b4b287a0a25e615eb62c5282ed904c8",
+    "common/adjust_lat.js": "66de369e842de12d6f324e22743fd0f0d377b947f334c7d6d252a98971e0f63a",
+    "common/msfnz.js": "0c5cbfbbf4fbe514c6da07d810263a2854637ed869d74e7ca8c579dd0aa807d4",
+    "common/tsfnz.js": "a2551610bc8a9a7b9745bfc68de626035ee7e4d0aa7f433d4e57c73397463dcb",
+    "common/e0fn.js": "ac36cef1129acb0040916f9ee16fd26e1269e6c88ac8202efeb87c5983ae31e4",
+    "common/e1fn.js": "d1c98bd014e3ae4c8e4adeac3285743b1e57e76d26825986af3cca690416f9b7",
+    "common/e2fn.js": "1b145061af11c010f452013133de9d801d54185ecc1c54bd57e908553cf38fcf",
+    "common/e3fn.js": "e0af991289b040cf75b061aad907be92447114ee7fcd7e8741f1ecccdf478937",
+    "common/mlfn.js": "0cec5bdfa59371e769f657f6a56cdb8155939e5bf368af44e4dce8d15f24c6de",
+    "common/asinz.js": "cbcd7cb98986454712a6dd7e11b89ade794132f210c769ae2776c9132dee72f7",
+    "common/qsfnz.js": "2cc885e915bd2cacc62c980e21b1bdf735ba3454e0aecbd88337eff2102561c8",
+    "common/phi2z.js": "c6560becf7512fead723f18f12be13d7dbabd412154fb59403a105b3d2ff046c",
+    "common/imlfn.js": "a6e364060c552e9040164e37476534cd08e8f20a5d9520a4b40267d1bd060676",
+    "common/toPoint.js": "cdc8cc27a1133de97097c712879061896e86e3e6840ce4b399bc66168570aacb",
+    "projString.js": "f36e77481b5ef6a4eab4d2b271eec79c2b4162a89619319fa1da11833641bbc5",
+    "deriveConstants.js": "4217dde4ef8a564e504ddee97136a98c83eeb0e378b8944f4b929546d46d477a",
+    "datum.js": "f2706c1c31a272952b343a090c3baa3407768bb6167f6b604ea4c819eca08826",
+    "datum_transform.js": "e5d4fc7e5527f0b956f4e57d36ca0d67106dd9800dfb744c589e030d48bd3646",
+    "transform.js": "4571b65b3980dc07e0f56c5abd4fa4ca9c474bad42b023b405a03f71a6822e4e",
+    "Proj.js": "4adbba6c4919b65e0f0bd5e25e1906065a3d542ce07f0664c6b69732ba44f9ac",
+    "global.js": "8d518d74f1a2873d965c974aa92811734e4450202dfd2eed3d15e5b5bb94c0af",
+    "constants/Datum.js": "738235ee040b27a1961d6db3cb411883527d43f606981e24d8f0b38ebb44bcb5",
+    "constants/Ellipsoid.js": "46cd9f3b77b764f94d31368850eca29894d98a80a4744cafe64fd5af54e44eb9",
+    "constants/PrimeMeridian.js": "0cffc840eaec07d7ad8b9eaceecf12555c83068575a118e53f5baa0e67aef385",
+    "constants/units.js": "4583a9cbf31f392eee513d2b7713a3b7af58fd1f3ff3ee8fbc4345d8403ade30",
+    "projections/merc.js": "d62d888bcee094d3082592fba5d80fd038073aca2a0cc202c7abb98519de1ba5",
+    "projections/lcc.js": "94c268741a1940be9e4eb55de3adc7993e46c95e68c967bc532b868b5986e261",
+    "projections/aea.js": "b26c18a404475e21574c0e5f3159eb4bfb45ba02bd68a0a47cb499c58823f5da",
+    "projections/eqdc.js": "bf8169c99835fded926a5bc9c805895aee2b36665c5223a3c599838ed9bb6013",
+    "projections/tmerc.js": "907d4127c010b44eb2a7b768f5b04a755efa56d8e79faf330b51e16896bb3560",
+    "projections/utm.js": "e79fe99340aab1789c467197f64e1b6baca6eb68d9b99221fe4e4383f4756ac8",
+    "projections/krovak.js": "f3f0ffa4373db166fd339693f202d0d9bd58df669ee33eb151eccfdec6604fc4",
+    "projections/longlat.js": "33937ec51f54d96db19ff6d528d45ecd92e59b162ebe6c426e02b62599829206",
+}
+
+
+def js_pin(check):
+    import hashlib
+    lib = os.path.join(vcheck.REPO, "proj", "proj4js-2.3.12", "lib")
+    bad = []
+    for rel, want in JS_PIN.items():
+        try:
+            got = hashlib.sha256(open(os.path.join(lib, rel), "rb").read()).hexdigest()
+        except OSError:
+            got = "missing"
+        if got != want:
+            bad.append(rel)
+    if bad:
+        check.broken.append("vendored proj4js 2.3.12 differs from the pinned release (Js.lean / table theorems were written "
+                            "against it): " + ", ".join(bad))
+    _state["js_pin"] = "%d files pinned, %d differ" % (len(JS_PIN), len(bad))
+
+
 def pregen(check):
+    js_pin(check)
     out = os.path.join(check.rundir, "c09extract")
     args = ["go", "build", "-o", out, "./cmd/c09/extract"]
     with vcheck.Lock("go"):
@@ -106,12 +165,13 @@ def node_crosscheck(check, pairs):
 
 def post(check, pairs, stats):
     stats["t1_extract"] = _state.get("extract", "")
+    stats["js_pin"] = _state.get("js_pin", "")
     try:
         stats["node_crosscheck"] = node_crosscheck(check, pairs)
     except Exception as e:  # the check must pass without node
         stats["node_crosscheck"] = {"error": repr(e)}
     # surface both in the evidence file
-    check.cfg["explanation"] = (check.cfg.get("explanation_base", "") + " | T1: " + stats["t1_extract"] +
+    check.cfg["explanation"] = (check.cfg.get("explanation_base", "") + " | T1: " + stats["t1_extract"] + " | proj4js sources: " + stats["js_pin"] +
                                 " | node cross-check of Js.lean: " + json.dumps(stats["node_crosscheck"]))
 
 
@@ -145,6 +205,7 @@ CFG = {
         # (Go side = the REGENERATED constructor bodies Gen.Go.<Ctor>_init)
         "go_init_tmerc_eq_js", "go_tmerc_fwd_eq_js'", "go_tmerc_inv_eq_js'", "go_init_utm_eq_js", "go_utm_fwd_eq_js'", "go_utm_inv_eq_js'",
         "go_merc_init_val", "js_merc_init_val", "go_init_merc_eq_js", "go_merc_fwd_eq_js'", "go_merc_inv_eq_js'",
+        "krovak_init_agree", "go_init_krovak_eq_js", "go_krovak_fwd_eq_js'", "go_krovak_inv_eq_js'",
         # known finding: lcc at the pole, proved on the regenerated closure
         "lcc_pole_is_moved",
         # (B) Snyder's closed forms
